@@ -33,8 +33,8 @@ LEVEL_TEXT = ("Coq theorems over the reals about the executable Gallina model of
               "multiplicity + affine invariance of the Cox-de Boor functions); surfaces split in u and in v likewise; decomposition never runs out "
               "of fuel, returns exactly (number of distinct interior knots + 1) Bezier pieces, in order, each coinciding with the original on "
               "its interval.  The count statement needs degree >= 1, interior multiplicities <= p and a tolerance that does not merge distinct "
-              "knots; without them it is false in the model (C07_decompose_count_full_refuted, witness degree 0).  NOT proved: decompose_surface "
-              "(u, v, uv) - only the single surface splits are; tied by the exact oracle and the correspondence. "
+              "knots; without them it is false in the model (C07_decompose_count_full_refuted, witness degree 0).  decompose_surface in u, v and uv (Proofs/SplitSurfDecompose.v): never rejected, "
+              "one Bezier patch per knot interval (product count for uv, u outer / v inner), each coinciding with the original on its rectangle. "
               "'Input not modified' holds trivially in the functional model and is checked on the implementation by the oracle.")
 LEVEL_NOTE = ("The model is tied to /repo by the sampled correspondence check (tolerance 1e-9). The geometric coincidence of pieces and original "
               "is checked exactly on every generated case by the oracle, not proved in general.")
